@@ -48,6 +48,15 @@ check('C07', TV,
       'SMT (z3) equivalence of simplifier input vs real simplifier output, per enumerated formula and configuration',
       'DESIGN.md 5 (C07)')
 
+check('C01', TV,
+      'For every enumerated program the real parser + tau* translation is run and z3 decides, rule by rule (and for the '
+      'whole theory when a rule-wise query is not unsat), that the printed theory and the program have the same HT models '
+      'and the same classical models: all H subset-of T over the standard domain, unbounded integers, and - where the '
+      'translation is parametric in them - symbolic numerals.',
+      BASE_NOTE + ' Reference mini-gringo semantics: DESIGN.md 4.3 (division/modulo defined for positive divisors, floor quotient).',
+      'SMT (z3) equivalence of reference mini-gringo HT semantics vs real tau* output, per enumerated program',
+      'DESIGN.md 5 (C01)')
+
 NOT_APPLICABLE = [
     ('C10', 'thread pool + process spawning + regex over prover output: no symbolic reach for Kani/CBMC (no concurrency/process model) and nothing for an SMT encoding to carry; see DESIGN.md 6'),
     ('C11', 'graph algorithms over HashMap/petgraph/IndexSet on concrete programs: nothing left for a solver to quantify over, and symbolic programs are out of reach (DESIGN.md 1.1, 6)'),
